@@ -131,12 +131,24 @@ func verifKey() k_nearest_nodes.Key {
 
 // C18 (6): the K-nearest container retains exactly the K nearest of the pushed elements, in distance
 // order, whatever the push order.
-func verifC18KNearest(n, k int) {
+func verifC18KNearest(n, k int) { verifC18KNearestTie(n, k, false) }
+
+// tie: two of the pushed keys (any pair, so any push order) carry the same node ID - equal distance -
+// and differ only in their address (another host, or another port of the same host).
+func verifC18KNearestTie(n, k int, tie bool) {
 	target := verifID()
 	c := k_nearest_nodes.New(target, k)
 	keys := make([]k_nearest_nodes.Key, n)
 	for i := range keys {
 		keys[i] = verifKey()
+	}
+	if tie {
+		pairs := [][2]int{{0, 1}, {0, 2}, {1, 2}}
+		pr := pairs[verifChoice(0, 2)]
+		verifAssume(keys[pr[0]].ID == keys[pr[1]].ID)
+		verifAssume(keys[pr[0]].Addr != keys[pr[1]].Addr)
+	}
+	for i := range keys {
 		c = c.Push(k_nearest_nodes.Elem{Key: keys[i], Data: i})
 		verifAssert(c.Len() <= k, "C18 knearest: never more than K")
 	}
@@ -192,6 +204,48 @@ func verifC18KNearest(n, k int) {
 }
 
 func VerifC18_KNearest_3_2() { verifC18KNearest(3, 2) }
+
+// Equal-distance ties: the same node ID on two addresses (another port of the same host, or another
+// host) plus a third element with an arbitrary ID, pushed in every order into a container of size 2:
+// it holds two elements, none of the dropped ones is strictly closer than a retained one, and when the
+// third element is farther both tied elements are retained.
+func VerifC18_KNearestTies() {
+	target := verifID()
+	var id, id2 krpc.ID
+	verifFill(id[:])
+	verifFill(id2[:])
+	verifAssume(id != id2)
+	mk := func(i krpc.ID, a string) k_nearest_nodes.Key {
+		return k_nearest_nodes.Key{ID: i, Addr: krpc.NodeAddrPort{AddrPort: netip.MustParseAddrPort(a)}}
+	}
+	a := mk(id, "10.0.0.1:1")
+	b := mk(id, []string{"10.0.0.1:2", "10.0.0.2:1"}[verifChoice(0, 1)])
+	f := mk(id2, "10.0.0.3:1")
+	orders := [][3]k_nearest_nodes.Key{{a, b, f}, {a, f, b}, {b, a, f}, {b, f, a}, {f, a, b}, {f, b, a}}
+	c := k_nearest_nodes.New(target, 2)
+	for _, k := range orders[verifChoice(0, 5)] {
+		c = c.Push(k_nearest_nodes.Elem{Key: k})
+	}
+	verifAssert(c.Len() == 2 && c.Full(), "C18 knearest: three distinct keys fill a container of size 2")
+	has := func(k k_nearest_nodes.Key) bool {
+		found := false
+		c.Range(func(e k_nearest_nodes.Elem) {
+			if e.Key == k {
+				found = true
+			}
+		})
+		return found
+	}
+	fCloser := refDistLess(id2.Int160(), id.Int160(), target)
+	if fCloser {
+		verifAssert(has(f) && (has(a) != has(b)), "C18 knearest: the strictly closer element is retained together with one of the tied ones")
+		verifReach("closer")
+	} else {
+		verifAssert(has(a) && has(b) && !has(f), "C18 knearest: two elements at equal distance that differ only in their address are both retained ahead of a farther one")
+		verifReach("farther")
+	}
+	verifReach("end")
+}
 func VerifC18_KNearest_3_1() { verifC18KNearest(3, 1) }
 func VerifC18_KNearest_4_2() { verifC18KNearest(4, 2) }
 func VerifC18_KNearest_4_3() { verifC18KNearest(4, 3) }
